@@ -155,8 +155,9 @@ impl<S: Store> RateLimiter<S> {
 
             // Initialize TAT or get from store
             let tat = if let Some(stored_tat) = tat_val {
-                // Use stored TAT but ensure it's not too far in the past
-                let min_tat = now_ns.saturating_sub(delay_variation_tolerance_ns);
+                // Use stored TAT but ensure it's not too far in the past: an idle key is
+                // worth exactly a full burst, the same as a key seen for the first time
+                let min_tat = now_ns.saturating_sub(emission_interval_ns);
                 stored_tat.max(min_tat)
             } else {
                 // First request - start with TAT = now - emission_interval
